@@ -19,7 +19,9 @@ Definition specOptIncludeFile := sp [("f", true); ("ns", false); ("as-is", false
 Close Scope string_scope.
 
 (* SearchIncFile: the name itself, else the first FRUNDISLIB directory that has it *)
-Definition is_file (p : str) (s : st) : bool := has_key p (fs s).
+(* the world's files are keyed by clean paths; os.Stat / os.ReadFile resolve . and .. segments *)
+Definition fs_get (p : str) (s : st) : option str := assoc (PathClean.clean p) (fs s).
+Definition is_file (p : str) (s : st) : bool := match fs_get p s with Some _ => true | None => false end.
 Definition search_inc_file (name : str) (s : st) : str * bool :=
   if is_file name s then (name, true) else
   match find (fun d => is_file (PathClean.join [d; name]) s) (libdirs s) with
@@ -71,7 +73,7 @@ Definition macro_include (pb : list block -> st -> st) (s : st) : st :=
     if flag "as-is" o then
       if negb (process s3) then s3 else
       let s4 := if par s3 then (begin_phrasing (flag "ns" o) s3) <| ws := true |> else s3 in
-      match assoc name (fs s4) with
+      match fs_get name s4 with
       | None => err "as-is inclusion: no such file" s4
       | Some src =>
         let '(t, s5) := match opt "t" o with
@@ -84,7 +86,7 @@ Definition macro_include (pb : list block -> st -> st) (s : st) : st :=
       let '(path, found) := search_inc_file name s3 in
       if negb found then (if process s3 then err "no such frundis source file" s3 else s3) else
       if existsb (str_eqb path) (incstack s3) then (if process s3 then err "recursive inclusion" s3 else s3) else
-      match assoc path (fs s3) with
+      match fs_get path s3 with
       | None => s3
       | Some src =>
         let '(bs, e) := parse src in
@@ -202,10 +204,10 @@ Definition init_st : st :=
        (mkToc false false 0 0 0 0 0 0 0 0 0) [] [] [] [] [] [] []
        0 0 0 0 [] [] false false [] 0 false 0 [] []
        [(R "xhtml-index", R "full"); (R "lang", R "en")] [] []
-       0 None [] [] 0 None 0 false [] [] false false (R "xhtml") [] false false 0%Z [] [] [] false 0 [] [] [] [] None.
+       0 None [] [] 0 None 0 false [] [] false false (R "xhtml") [] false false 0%Z [] [] [] false [] 0 [] [] [] [] None.
 
 Definition reset (s : st) : st :=
-  init_st <| format := format s |> <| existing := existing s |> <| fs := fs s |> <| libdirs := libdirs s |> <| unrestricted := unrestricted s |>
+  init_st <| format := format s |> <| existing := existing s |> <| fs := fs s |> <| libdirs := libdirs s |> <| unrestricted := unrestricted s |> <| urls := urls s |>
           <| cfile := cfile s |> <| incstack := incstack s |>
           <| mode := mode s |> <| dtags := dtags s |> <| ids := ids s |> <| images := images s |> <| mtags := mtags s |> <| params := params s |>
           <| lox_toc := lox_toc s |> <| lox_nav := lox_nav s |> <| lox_lof := lox_lof s |> <| lox_lot := lox_lot s |> <| lox_lop := lox_lop s |>
@@ -233,7 +235,7 @@ Definition exp_post (s : st) : st :=
   | _, _ => s
   end.
 
-Record world := mkWorld { w_existing : list str; w_fs : list (str * str); w_libdirs : list str; w_unrestricted : bool }.
+Record world := mkWorld { w_existing : list str; w_fs : list (str * str); w_libdirs : list str; w_unrestricted : bool; w_urls : list (str * option str) }.
 
 Definition nesting_fuel (wd : world) : nat := (64 + List.length (w_fs wd))%nat.
 
@@ -246,7 +248,7 @@ Definition eof_sweep (s2 : st) : st :=
 
 Definition start_st (fmtname : str) (md : nat) (wd : world) (main : str) : st :=
   init_st <| format := fmtname |> <| mode := md |> <| existing := w_existing wd |> <| fs := w_fs wd |> <| libdirs := w_libdirs wd |>
-          <| unrestricted := w_unrestricted wd |> <| cfile := main |> <| incstack := [main] |>
+          <| unrestricted := w_unrestricted wd |> <| urls := w_urls wd |> <| cfile := main |> <| incstack := [main] |>
           <| params := (if str_eqb fmtname (R "xhtml") || str_eqb fmtname (R "epub") then [(R "xhtml-index", R "full"); (R "lang", R "en")] else [(R "lang", R "en")]) |>.
 
 Definition compile (fuel : nat) (fmtname : str) (md : nat) (wd : world) (main : str) (bs : list block) : st :=
